@@ -364,6 +364,26 @@ pub fn check_table<C, const K: usize, const N: usize>(
     std::mem::forget(mc);
 }
 
+/// The stack-pointer / instruction-pointer names of a context type: they name the architecture's slots, agree with the
+/// dedicated accessors, and are canonical (memoizable to themselves, i.e. usable in validity sets and present in REGISTERS).
+pub fn check_sp_ip<C, const K: usize>(c: &C, slots: fn(&C) -> [u64; K], wrap: fn(C) -> MinidumpRawContext, sp: &'static str, sp_slot: usize, ip: &'static str, ip_slot: usize)
+where
+    C: CpuContext + Clone,
+    C::Register: Into<u64> + Copy + PartialEq,
+{
+    let s = slots(c);
+    assert!(c.stack_pointer_register_name() == sp);
+    assert!(c.instruction_pointer_register_name() == ip);
+    assert!(c.memoize_register(c.stack_pointer_register_name()) == Some(sp));
+    assert!(c.memoize_register(c.instruction_pointer_register_name()) == Some(ip));
+    assert!(c.get_register_always(sp).into() == s[sp_slot]);
+    assert!(c.get_register_always(ip).into() == s[ip_slot]);
+    let mc = MinidumpContext { raw: wrap(c.clone()), valid: MinidumpContextValidity::All };
+    assert!(mc.get_stack_pointer() == s[sp_slot]);
+    assert!(mc.get_instruction_pointer() == s[ip_slot]);
+    std::mem::forget(mc);
+}
+
 /// slot index of every entry of `C::REGISTERS`, looked up by name in the spec (concrete strings only)
 pub fn slots_of_registers<C: CpuContext, const N: usize>(spec: &[(&'static str, usize); N]) -> [usize; N] {
     let mut out = [usize::MAX; N];
